@@ -137,7 +137,23 @@ func (d *gateDriver) Open(name string) (driver.Conn, error) {
 
 type gateConn struct {
 	*sqlite3.SQLiteConn
-	g *Gate
+	g    *Gate
+	inTx bool
+}
+
+// parkRows holds the reading goroutine of a registered actor after it has
+// consumed and closed the result of a query made OUTSIDE a transaction (park
+// point "postQuery"; only when the scheduler asks for it).
+type parkRows struct {
+	*sqlite3.SQLiteRows
+	g     *Gate
+	actor string
+}
+
+func (r *parkRows) Close() error {
+	err := r.SQLiteRows.Close()
+	r.g.park(r.actor, "postQuery")
+	return err
 }
 
 func (c *gateConn) BeginTx(ctx context.Context, opts driver.TxOptions) (driver.Tx, error) {
@@ -153,6 +169,7 @@ func (c *gateConn) BeginTx(ctx context.Context, opts driver.TxOptions) (driver.T
 	if err != nil {
 		return nil, err
 	}
+	c.inTx = true
 	return &gateTx{inner: tx, c: c, actor: actor}, nil
 }
 
@@ -177,7 +194,15 @@ func (c *gateConn) QueryContext(ctx context.Context, query string, args []driver
 	if err := ctx.Err(); err != nil {
 		return nil, err
 	}
-	return c.SQLiteConn.QueryContext(ctx, query, args)
+	rows, err := c.SQLiteConn.QueryContext(ctx, query, args)
+	if err == nil && !c.inTx {
+		if actor := actorOf(ctx); actor != "" && c.g.holds(actor, "postQuery") {
+			if sr, ok := rows.(*sqlite3.SQLiteRows); ok {
+				return &parkRows{SQLiteRows: sr, g: c.g, actor: actor}, nil
+			}
+		}
+	}
+	return rows, err
 }
 
 func (c *gateConn) PrepareContext(ctx context.Context, query string) (driver.Stmt, error) {
@@ -221,9 +246,11 @@ type gateTx struct {
 func (t *gateTx) Commit() error {
 	if err := t.c.g.step("commit", "COMMIT"); err != nil {
 		_ = t.inner.Rollback()
+		t.c.inTx = false
 		return err
 	}
 	err := t.inner.Commit()
+	t.c.inTx = false
 	if err == nil {
 		t.c.g.park(t.actor, "postCommit")
 	}
@@ -238,5 +265,6 @@ func (t *gateTx) Rollback() error {
 		t.c.g.events = append(t.c.g.events, Event{N: t.c.g.n, Kind: "rollback", Query: "ROLLBACK"})
 	}
 	t.c.g.mu.Unlock()
+	t.c.inTx = false
 	return t.inner.Rollback()
 }
